@@ -859,7 +859,7 @@ func (w *world) judgePassOver(st *stub, n uint64, p *big.Int) {
 func (w *world) finish() {
 	cfg := w.cfg
 	w.res.Faults, w.res.Probes = w.faults, w.probes
-	w.res.SimNs = w.simNs
+	w.res.SimNs = w.simNs + int64(w.res.Steps)*int64(stepTime)
 	if w.res.Tags == nil {
 		w.res.Tags = map[string]string{}
 	}
